@@ -27,7 +27,9 @@ theorem allCodes_complete (code : Code) : code ∈ allCodes := by
   cases code <;> decide
 
 /-- C19.is_after_wrap + no_other_class: for every class with a code and ANY chain of wrappings /
-embedding around it, in ANY map iteration order, Is(GRPCWrap(err), class) holds and
+embedding around it (`Around`: around the sentinel or an OS error value of the class, through single
+`%w`, embedding, and two-`%w` / `errors.Join` nodes whose other child is `Plain`), in ANY map
+iteration order, Is(GRPCWrap(err), class) holds and
 Is(GRPCWrap(err), other) fails for every other class. -/
 theorem is_after_wrap (c : Cls) (code : Code) (hc : (c, code) ∈ errorsToCode) (e : Err) (h : Around c e)
     (tbl : List (Cls × Code)) (hp : tbl.Perm errorsToCode) (t : Cls) :
@@ -45,6 +47,14 @@ theorem order_independent (c : Cls) (e : Err) (h : Around c e)
 theorem code_of_chain (c : Cls) (code : Code) (hc : (c, code) ∈ errorsToCode) (e : Err) (h : Around c e) :
     grpcStatusCode e = code :=
   grpcStatusCodeOrd_of_around_mem keys_nodup.1 hc h (List.Perm.refl _)
+
+/-- an OS error value (`*fs.PathError` around ENOENT/EEXIST/EACCES) is not a key of the Go map, so
+the direct lookup misses; the `errors.Is` loop finds the code of its class in ANY iteration order
+(instance of `grpcStatusCodeOrd_of_around_mem` at `Around.os`) -/
+theorem os_error_class (c : Cls) (code : Code) (hc : (c, code) ∈ errorsToCode) (m : String)
+    (tbl : List (Cls × Code)) (hp : tbl.Perm errorsToCode) :
+    grpcStatusCodeOrd tbl (.osErr c m) = code :=
+  grpcStatusCodeOrd_of_around_mem keys_nodup.1 hc .os hp
 
 /-- C19.wrap_idempotent, for every error whatsoever -/
 theorem wrap_idempotent (e : Err) : grpcWrap (grpcWrap e) = grpcWrap e :=
@@ -82,6 +92,16 @@ example : grpcStatusCode (.wrap "x: " "" (.cls .ErrCommunication)) = .cInternal 
 /-- non-vacuity -/
 example : is (grpcWrap (.wrap "ctx: " "" (.embed "{\"a\":1}" (.cls .ErrNotExist)))) .ErrNotExist = true ∧
     extractObject (grpcWrap (.wrap "ctx: " "" (.embed "{\"a\":1}" (.cls .ErrNotExist)))) = some "{\"a\":1}" := by
+  decide
+
+/-- two `%w` verbs: the class of the left child survives GRPCWrap, no other class appears -/
+example : is (grpcWrap (.wrap2 "a: " " / " "" (.cls .ErrNotExist) (.other "eof"))) .ErrNotExist = true ∧
+    is (grpcWrap (.wrap2 "a: " " / " "" (.cls .ErrNotExist) (.other "eof"))) .ErrInternal = false := by
+  decide
+
+/-- a wrapped OS error: found by the table loop only -/
+example : is (grpcWrap (.wrap "open x: " "" (.osErr .ErrNotExist "no such file or directory"))) .ErrNotExist = true ∧
+    is (grpcWrap (.wrap "open x: " "" (.osErr .ErrNotExist "no such file or directory"))) .ErrInternal = false := by
   decide
 
 end C19
